@@ -473,10 +473,11 @@ class ExcFlow:
         return out
 
     def _nonempty_import_name(self, fi, call):
-        """__import__(x) raises ValueError only for the empty name.  True when
-        every path to the call has established `'' not in x.split('.')` (or
-        that x is truthy): conditions that hold on all paths, read off the
-        CFG, so and/or/not and either branch polarity are covered."""
+        """__import__(x) raises ValueError for a name with an empty component
+        ('' itself, '.os', 'a..b').  True when every path to the call has
+        established `'' not in x.split('.')`: a condition that holds on all
+        paths, read off the CFG, so and/or/not and either branch polarity are
+        covered.  (That the name is non-empty is not enough: '.os'.)"""
         if not call.args:
             return False
         from . import cfg as cfgmod
@@ -506,8 +507,6 @@ class ExcFlow:
                     if (isinstance(a.ops[0], ast.In) and not pol) or (
                             isinstance(a.ops[0], ast.NotIn) and pol):
                         ok = True
-                if pol and src(a) == arg:
-                    ok = True
             if not ok:
                 return False
         return True
